@@ -222,12 +222,35 @@ func mainCheck(a []string) int {
 	for _, h := range spec.HarnessDirs {
 		hdirs = append(hdirs, filepath.Join(verifRoot, h))
 	}
+	// A region that cannot be lifted any more (anchor gone, interface changed) makes the check inconclusive, but
+	// the harnesses that do not use it are still run: a violation they find is still a violation.
+	var failedRegions []string
+	var liftNotes []string
 	extra, lerr := liftRegions(&spec)
-	if lerr != nil {
+	for lerr != nil {
 		fmt.Println("LIFT ERROR (anchor not found or region not liftable):", lerr)
-		writeEvidence(&spec, tier, seed, nil, time.Since(t0).Seconds(), 0, []string{"lift error: " + lerr.Error()}, nil)
-		return 3
+		liftNotes = append(liftNotes, "lift error: "+lerr.Error())
+		bad := ""
+		for _, r := range spec.Regions {
+			if strings.Contains(lerr.Error(), "region "+r.Name+":") {
+				bad = r.Name
+			}
+		}
+		if bad == "" {
+			writeEvidence(&spec, tier, seed, nil, time.Since(t0).Seconds(), 0, liftNotes, nil)
+			return 3
+		}
+		failedRegions = append(failedRegions, bad)
+		var keep []lift.Region
+		for _, r := range spec.Regions {
+			if r.Name != bad {
+				keep = append(keep, r)
+			}
+		}
+		spec.Regions = keep
+		extra, lerr = liftRegions(&spec)
 	}
+	sym.SkipFilesMentioning = failedRegions
 	ld, err := sym.Load(spec.PackageDir, hdirs, extra)
 	if err != nil {
 		fmt.Println("LOAD ERROR:", err)
@@ -304,6 +327,10 @@ func mainCheck(a []string) int {
 	// report
 	verdict := 0
 	var notes []string
+	if len(liftNotes) > 0 {
+		notes = append(notes, liftNotes...)
+		verdict = 3
+	}
 	totalQ, discharged := 0, 0
 	for _, r := range results {
 		fmt.Printf("== %s  exec %.2fs solve %.1fs blocks=%d terms=%d\n", r.name, r.execSecs, r.solveSecs, r.blocks, r.terms)
@@ -1125,6 +1152,15 @@ func nativeReplayFile(spec *Spec, replayPath, tmp string) (fails []string, assum
 		for _, f := range files {
 			b, err := os.ReadFile(f)
 			if err != nil {
+				continue
+			}
+			skip := false
+			for _, name := range sym.SkipFilesMentioning {
+				if strings.Contains(string(b), name+"(") {
+					skip = true
+				}
+			}
+			if skip {
 				continue
 			}
 			cp := filepath.Join(tmp, "h_"+sanitize(hd)+"_"+filepath.Base(f))
